@@ -282,9 +282,11 @@ def delay_schedules(name, initial, make):
     of memory.py, every instrumented access"""
     out = []
     n = len(make(World(Scheduler(), initial))[0])
+    # (the line3 scenarios concern what happens inside policy.py, which the coarse mode leaves without yield points)
+    coarse = not name.startswith('line3:')
     for start in range(n):
         try:
-            base = run_one(name, initial, make, {0: start}, line_mode=True, cyclic=True, coarse=True)
+            base = run_one(name, initial, make, {0: start}, line_mode=True, cyclic=True, coarse=coarse)
         except Stuck:
             UNSCHEDULABLE.append((name, ((0, start),)))
             continue
@@ -297,7 +299,7 @@ def delay_schedules(name, initial, make):
             nxt = later[0] if later else others[0]
             pre = ((0, start), (step, nxt))
             try:
-                r = run_one(name, initial, make, dict(pre), line_mode=True, cyclic=True, coarse=True)
+                r = run_one(name, initial, make, dict(pre), line_mode=True, cyclic=True, coarse=coarse)
             except Stuck:
                 UNSCHEDULABLE.append((name, pre))
                 continue
@@ -580,6 +582,7 @@ def replay(ctx, rp):
         if name == c.get('scenario') and 'preemptions' in c:
             delay = name.startswith('cached3:') or name.startswith('line3:')
             results, sched, w, problems = run_one(name, initial, make, {int(a): int(b) for a, b in c['preemptions']},
-                                                  line_mode=delay or name.startswith('cached:'), cyclic=delay, coarse=delay)
+                                                  line_mode=delay or name.startswith('cached:'), cyclic=delay,
+                                                  coarse=delay and not name.startswith('line3:'))
             return {'results': [list(map(str, r)) for r in results], 'problems': problems, 'still_fails': bool(problems)}
     return {'still_fails': None, 'note': 'random deep schedule: re-run the check with the recorded seed'}
